@@ -522,6 +522,7 @@ int LLVMFuzzerTestOneInput(const uint8_t *data, size_t size)
 }
 
 /* ---------------------------------------------------------------- mutator */
+#ifndef FZ_STANDALONE
 static const char *const keywords[] = {
     "[Version] 2.0\n", "[Version] 1.0\n", "[Version] 3.0\n", "[Number of Ports] 2\n", "[Number of Ports] 1\n", "[Number of Ports] 3\n",
     "[Number of Ports] 0\n", "[Number of Frequencies] 1\n", "[Number of Frequencies] 2\n", "[Number of Frequencies] 0\n",
@@ -539,3 +540,4 @@ size_t LLVMFuzzerCustomMutator(uint8_t *data, size_t size, size_t max_size, unsi
 {
     return fz_text_mutate(data, size, max_size, seed, 1, keywords, sizeof(keywords) / sizeof(keywords[0]));
 }
+#endif /* FZ_STANDALONE */
